@@ -49,6 +49,8 @@ const (
 	iEexp
 	iEfut
 	iEcur
+	iE1idxA
+	iE1idxB
 )
 
 func buildItems() {
@@ -68,6 +70,11 @@ func buildItems() {
 	idx := cloneEv(e1)
 	idx.VoteA.ValidatorIndex++
 	idx.VoteB.ValidatorIndex++
+	// one index changed only (the index is unsigned but part of the evidence hash: a replay of committed evidence under a new hash)
+	idxA := cloneEv(e1)
+	idxA.VoteA.ValidatorIndex++
+	idxB := cloneEv(e1)
+	idxB.VoteB.ValidatorIndex++
 	swap := cloneEv(e1)
 	swap.VoteA, swap.VoteB = swap.VoteB, swap.VoteA
 	sig := cloneEv(e1)
@@ -97,7 +104,7 @@ func buildItems() {
 		e     *types.DuplicateVoteEvidence
 		plain bool
 	}{{"E1", e1, true}, {"E2", e2, true}, {"E1idx", idx, false}, {"E1swap", swap, false}, {sigName, sig, false}, {"E1type", typ, false},
-		{"Eold", old, true}, {"Eexp", exp, true}, {"Efut", fut, true}, {"Ecur", cur, true}} {
+		{"Eold", old, true}, {"Eexp", exp, true}, {"Efut", fut, true}, {"Ecur", cur, true}, {"E1idxA", idxA, false}, {"E1idxB", idxB, false}} {
 		it := &item{Name: x.n, Ev: x.e, Class: equivocationID(x.e, chainID), Hash: x.e.Hash().Hex(), Plain: x.plain, Height: x.e.Height()}
 		w, err := roundTrip(x.e)
 		if err == nil {
@@ -181,7 +188,7 @@ func alphabet() []token {
 	for i := range items {
 		ts = append(ts, token{Kind: "check", Is: []int{i}})
 	}
-	for _, p := range [][]int{{iE1, iE2}, {iE1, iE1}, {iE1, iE1idx}, {iE1, iE1type}} {
+	for _, p := range [][]int{{iE1, iE2}, {iE1, iE1}, {iE1, iE1idx}, {iE1, iE1type}, {iE1, iE1idxA}, {iE1, iE1idxB}} {
 		ts = append(ts, token{Kind: "check", Is: p})
 	}
 	// a block may carry ANY evidence known to the search, built canonically as another node would have
